@@ -228,18 +228,6 @@ theorem eraseC_conc (a : Aid) (ws : List AWaiter) : eraseC a (ws.map concW) = (e
 
 /-! ### notify: pop the head, re-lock -/
 
-theorem ainv_pop_acquire {s : ASt} {c : Nat} {x : AWaiter} {rest : List AWaiter} (r : Res) (hi : AInv s)
-    (hq : s.cv c = x :: rest) :
-    AInv (({ s with cv := upd s.cv c rest } : ASt).acquire x.issuer x.mutex r).1 := by
-  have hxm : x ∈ s.cv c := by rw [hq]; simp
-  have hnd := hi.cvNd c
-  rw [hq] at hnd
-  simp only [List.map_cons, List.nodup_cons] at hnd
-  have hsub : ∀ y ∈ rest, y ∈ s.cv c := fun y hy => by rw [hq]; exact List.mem_cons_of_mem _ hy
-  have h1 := ainv_cvshrink c rest hi hsub hnd.2
-  have ho := out_removed rest hi hxm (fun y hy => ⟨hsub y hy, fun e => hnd.1 (e ▸ List.mem_map_of_mem hy)⟩)
-  exact ainv_acquire x.mutex r h1 ho
-
 theorem sim_signal {w : World} {s : ASt} (h : Abs w s) (c : Nat) (x : AWaiter) (rest : List AWaiter)
     (hq : s.cv c = x :: rest) (hown : (s.mx x.mutex).owner ≠ some x.issuer) :
     Abs (condSignal w c).1 (({ s with cv := upd s.cv c rest } : ASt).acquire x.issuer x.mutex (.flag false)).1 ∧
